@@ -242,6 +242,15 @@ def gen_random(rng, huge=False):
         x = 1_700_000_000_000_000_000 + np.cumsum(rng.integers(1, 400, n)).astype(np.int64)
         qs = np.sort(np.array([int(x[int(rng.integers(0, n))]) + int(rng.integers(-120, 121))
                                for _ in range(int(rng.integers(1, 13)))], dtype=np.int64))
+        # the two sides in 64-bit types of different signedness (a uint64 column against Python ints / int64 bounds, or the
+        # other way round): NumPy has no common integer type for that pair and would compare in float64
+        t = int(rng.integers(0, 4))
+        if t == 0:
+            return x.astype(np.uint64), qs
+        if t == 1:
+            return x.astype(np.uint64), [int(v) for v in qs]
+        if t == 2:
+            return x, qs.astype(np.uint64)
         return x, qs
     if style == 0:
         x = np.cumsum(rng.lognormal(0, 1.5, n)) + rng.normal(0, 100)
